@@ -5,6 +5,7 @@ package hub
 import (
 	"context"
 	"fmt"
+	"os"
 	"sort"
 	"strings"
 	"time"
@@ -410,6 +411,9 @@ func (c *Client) CommitCtx(ctx context.Context) string {
 	n := c.callBegin("commit")
 	st := c.txn
 	err := st.txn.Commit(ctx)
+	if err != nil && os.Getenv("HUB_DEBUG_COMMIT") != "" {
+		fmt.Fprintf(os.Stderr, "commit of %d: ctxErr=%v err=%+v\n", st.startTS, ctx.Err(), err)
+	}
 	res := ""
 	switch cl := Classify(err); cl {
 	case "ok":
